@@ -59,8 +59,9 @@ def constants_changed():
 
 # --------------------------------------------------------------------------- values
 
+BIG = [10737418240.0, float(2 ** 40), -3.0e12, 2 ** 40, 123456789012]      # numbers whose neighbours are "close"
 SCALARS = [None, True, False, 0, 1, 2, -1, 7, 2 ** 40, 0.5, 1.0, 2.0, 1.5, -0.125, "", "a", "b", "A", "ab",
-           " a", "a ", "x$y", "1", "True", "None", "é", "0"]
+           " a", "a ", "x$y", "1", "True", "None", "é", "0", 10737418240.0, float(2 ** 40), -3.0e12, 123456789012]
 KEYS = ["a", "b", "c", "name", "key", "items", "spec", "tags", "ports", "meta", "k1", "k2"]
 SAFE_STR = ["a", "b", "ab", "xyz", "Value", "two words", "é"]   # survive koreo's CEL encoder unchanged
 
@@ -85,7 +86,8 @@ def gen_obj(r, depth=3, n=None):
 def small_value(r, depth=2):
     """celpy-safe values (ints within int64, floats in eighths)"""
     if depth <= 0 or r.random() < 0.45:
-        return r.choice([None, True, False, 0, 1, 2, -3, 41, 0.5, 2.0, "", "a", "B", "two words", "1", " x"])
+        return r.choice([None, True, False, 0, 1, 2, -3, 41, 0.5, 2.0, "", "a", "B", "two words", "1", " x",
+                         10737418240.0, 2 ** 40, -3.0e12])
     if r.random() < 0.5:
         return [small_value(r, depth - 1) for _ in range(r.choice([0, 1, 2, 3]))]
     return {k: small_value(r, depth - 1) for k in r.sample(KEYS[:6], r.choice([0, 1, 2, 3]))}
@@ -228,6 +230,12 @@ def other_scalar(r, s):
 RETYPE = {True: 1, False: 0}
 
 
+def nudged(r, n):
+    """the number next to `n` in the generators' grid, as a float: a relatively tiny but real difference"""
+    step = r.choice([1.0, -1.0, 0.125]) if abs(n) >= 1e9 else r.choice([1.0, 0.125, -0.5])
+    return float(n) + step
+
+
 def retyped(s):
     """a value of another JSON type that Python's `==` or `str()` would conflate with `s`"""
     if isinstance(s, bool):
@@ -260,6 +268,11 @@ def deviations(r, v, kinds=None, top_must_stay_object=True):
     if leaves and want("retyped-leaf"):
         p = r.choice(leaves)
         out.append(("retyped-leaf", set_at(v, p, retyped(get_at(v, p)))))
+    numbers = [p for p in leaves if isinstance(get_at(v, p), (int, float)) and not isinstance(get_at(v, p), bool)]
+    if numbers and want("nudged-number"):
+        big = [p for p in numbers if abs(get_at(v, p)) >= 1e9]
+        p = r.choice(big or numbers)
+        out.append(("nudged-number", set_at(v, p, nudged(r, get_at(v, p)))))
     nonempty = [p for p in dicts if [k for k in get_at(v, p) if k not in DIRECTIVES]]
     if nonempty and want("missing-key"):
         p = r.choice(nonempty)
@@ -604,25 +617,32 @@ async def _offer_function(kind: str, name: str, spec: dict):
     return await ku.offer_resource_function(name, spec)
 
 
-_LAST_FN: dict = {}
+_FN_CACHE: dict = {}      # spec key -> (name in koreo's cache, prepared function); a handful at a time
 
 
 async def prepare_ft_async(kind: str, fn_spec: dict, ft_spec: dict, fn_name="fut", reset=True):
     """prepare the Function through the real cache, then the FunctionTest; -> (function, function_test).
-    The prepared Function is reused while (kind, spec) stay the same."""
+    A few prepared Functions are kept (each under its own name) so that probing the same scenario with two
+    variants of a spec does not re-compile them every time."""
     from koreo import result
     from koreo.function_test.prepare import prepare_function_test
 
-    key = json.dumps([kind, fn_name, fn_spec], sort_keys=True, default=str)
-    if _LAST_FN.get("key") == key and _LAST_FN.get("repo") == str(common.REPO):
-        fn = _LAST_FN["fn"]
+    key = json.dumps([kind, fn_name, fn_spec, str(common.REPO)], sort_keys=True, default=str)
+    hit = _FN_CACHE.get(key)
+    if hit is not None:
+        fn_name, fn = hit
     else:
-        if reset:
+        if len(_FN_CACHE) >= 6:
+            _FN_CACHE.clear()
+            if reset:
+                ku.reset()
+        elif not _FN_CACHE and reset:
             ku.reset()
+        fn_name = f"{fn_name}-{len(_FN_CACHE)}"
         fn = await _offer_function(kind, fn_name, fn_spec)
         if not result.is_unwrapped_ok(fn):
             raise Infra(f"generated {kind} did not prepare: {fn}")
-        _LAST_FN.update({"key": key, "fn": fn, "repo": str(common.REPO)})
+        _FN_CACHE[key] = (fn_name, fn)
     spec = dict(copy.deepcopy(ft_spec), functionRef={"kind": kind, "name": fn_name})
     prepared = await prepare_function_test(cache_key="ft", spec=spec)
     if not result.is_unwrapped_ok(prepared):
